@@ -46,6 +46,38 @@ theorem mem_flatListParts {ns : List Node} {n : Node} (hn : n ∈ ns) (hop : isO
       · exact ih h
       · simp only [List.mem_append]; right; exact ih h
 
+theorem mem_flatListPartsCd_first {ns : List Node} {n : Node} (hn : firstNonOp ns = some n)
+    (cwd0 cwd : String) (r : Bool) (x : Atom) (hx : x ∈ flat s n cwd0 r) : x ∈ flatListPartsCd s ns cwd0 cwd r := by
+  induction ns with
+  | nil => simp [firstNonOp] at hn
+  | cons m ms ih =>
+    simp only [firstNonOp] at hn
+    simp only [flatListPartsCd]
+    split at hn
+    · rename_i hop
+      simp only [hop, ↓reduceIte]
+      exact ih hn
+    · rename_i hop
+      simp only [Option.some.injEq] at hn
+      subst hn
+      simp only [hop, Bool.false_eq_true, ↓reduceIte, List.mem_append]
+      exact Or.inl hx
+
+theorem mem_flatListPartsCd_rest {ns : List Node} {n : Node} (hn : n ∈ restAfterFirstNonOp ns) (hop : isOperator n = false)
+    (cwd0 cwd : String) (r : Bool) (x : Atom) (hx : x ∈ flat s n cwd r) : x ∈ flatListPartsCd s ns cwd0 cwd r := by
+  induction ns with
+  | nil => simp [restAfterFirstNonOp] at hn
+  | cons m ms ih =>
+    simp only [restAfterFirstNonOp] at hn
+    simp only [flatListPartsCd]
+    split at hn
+    · rename_i hm
+      simp only [hm, ↓reduceIte]
+      exact ih hn
+    · rename_i hm
+      simp only [hm, Bool.false_eq_true, ↓reduceIte, List.mem_append]
+      exact Or.inr (mem_flatListParts _ hn hop cwd r x hx)
+
 theorem mem_flatWords {ws : List Word} {wd : Word} (hw : wd ∈ ws) (cwd : String) (r : Bool) (x : Atom)
     (hx : x ∈ flatWord s wd cwd r) : x ∈ flatWords s ws cwd r := by
   induction ws with
@@ -246,9 +278,12 @@ theorem child_atoms (w : World) (r : Bool) (a b : Piece × String)
     simp only [flat]; simp only [List.mem_append]; left; right
     exact mem_flatRedirects _ hr cwd r x hx
   case pipeline cmds cwd n hn => simp only [flat]; exact mem_flatNodes _ hn cwd r x hx
+  case listFirst parts cwd n hn =>
+    simp only [flat]
+    exact mem_flatListPartsCd_first _ hn cwd _ r x hx
   case list parts cwd n hn hop =>
     simp only [flat]
-    exact mem_flatListParts _ hn hop _ r x hx
+    exact mem_flatListPartsCd_rest _ hn hop cwd _ r x hx
   case ifCond => simp only [flat]; simp only [List.mem_append]; left; left; left; exact hx
   case ifThen => simp only [flat]; simp only [List.mem_append]; left; left; right; exact hx
   case ifElse => simp only [flat]; simp only [List.mem_append, flatOptNode]; left; right; exact hx
